@@ -94,9 +94,20 @@ def run_step(S, cfg, dt, fields, weights_in, e_shift, n_exp_terms=6):
     cls = propagation.propagator_restricted if S["restricted"] else propagation.propagator_unrestricted
     prop = cls(dt=dt, n_walkers=M, n_exp_terms=n_exp_terms)
     ham = hamiltonian.hamiltonian(n)
-    hd = {"h0": S["h0"], "h1": jnp.asarray(S["h1"]), "chol": jnp.asarray(S["chol"].reshape(len(S["chol"]), n * n)), "ene0": 0.0}
+    # Intermediates are rebuilt on the dictionary returned by the previous build (first on a decoy Hamiltonian with
+    # other Cholesky vectors and another time step), the way the AD samplers re-prepare a ham_data: anything that
+    # is cached instead of rebuilt goes stale and shows up in the step oracles.
+    if "_carry" not in S:
+        dh0, dh1, dchol = al.small_ham(n, len(S["chol"]), cfg["seed"] + 17, spin_dependent=not S["restricted"], scale=0.7)
+        dprop = cls(dt=0.033, n_walkers=M, n_exp_terms=n_exp_terms)
+        d = {"h0": dh0, "h1": jnp.asarray(dh1), "chol": jnp.asarray(dchol.reshape(len(dchol), n * n)), "ene0": 0.0}
+        d = ham.build_measurement_intermediates(d, S["trial"], S["wd"])
+        S["_carry"] = dict(ham.build_propagation_intermediates(d, dprop, S["trial"], S["wd"]))
+    hd = dict(S["_carry"])
+    hd.update({"h0": S["h0"], "h1": jnp.asarray(S["h1"]), "chol": jnp.asarray(S["chol"].reshape(len(S["chol"]), n * n)), "ene0": 0.0})
     hd = ham.build_measurement_intermediates(hd, S["trial"], S["wd"])
     hd = ham.build_propagation_intermediates(hd, prop, S["trial"], S["wd"])
+    S["_carry"] = dict(hd)
     if S["restricted"]:
         walkers = jnp.asarray(np.repeat(S["wa"][None], M, axis=0))
     else:
